@@ -183,7 +183,7 @@ def vwLoop (big eps2 : α) : Nat → VState α → VState α
     | none => S
     | some S' => vwLoop big eps2 fuel S'
 
-/-- `visvalingam(track, eps)`: `eps **= 2`, area column, loop, feature removed -/
+/-- `visvalingam(track, eps)`: `eps = eps * eps` (b704eae; `eps **= 2`, which raises OverflowError from 1.35e154 on, before), area column, loop, feature removed -/
 def visvalingam (big eps : α) (L : List (Fix α)) : List (Fix α) :=
   (vwLoop big (eps * eps) L.length (vwInit L)).map (·.1)
 
